@@ -219,7 +219,7 @@ def _c20_distribution(cases):
         n = sum(1 for t in toks if t in ("K", "C"))
         b = min(n // 5 * 5, 40)
         bump("nodes", "%d-%d" % (b, b + 4))
-        depth, cur = 0, 0
+        depth, cur = 1, 1          # the receiver's own level (its elements are listed without brackets)
         for t in toks:
             if t == "[":
                 cur += 1
